@@ -310,6 +310,8 @@ struct Stats {
 	max_leaves: u64,
 	appended: u64,
 	removed: u64,
+	/// compactions that left the data file empty (every leaf spent, all rolled up), followed by further units on the same instance
+	wiped_data_files: u64,
 }
 
 #[derive(Default)]
@@ -718,9 +720,14 @@ fn program<T: Elem>(
 	let max_leaves = (40 * cfg.max_units * cfg.scale) as usize;
 	tr.op("open", "open".into());
 	check(&mut be, &m, 0, prunable, true, true, &mut prng, st)?;
+	// every fourth prunable program has one unit that spends EVERY leaf still unspent (after making the leaf count even, so
+	// that everything rolls up into pruned subtrees), commits and compacts at the head: the data file is left empty, and
+	// the same instance then goes on with further units. Drawn without touching the PRNG stream of the other programs.
+	let wipe_unit: Option<u64> = if prunable && cfg.idx % 4 == 1 && units >= 3 { Some(1 + (cfg.idx / 4) % (units - 2).min(6)) } else { None };
 
 	for _u in 0..units {
 		st.units += 1;
+		let wipe_now = wipe_unit == Some(_u);
 		let pre = m.clone();
 		let mut size = m.size();
 
@@ -728,7 +735,7 @@ fn program<T: Elem>(
 		// (the chain starts every extension with Extension::rewind to the fork point, which for a
 		// plain head extension is the no-op rewind at the head)
 		let mut rewound = false;
-		let real_rewind = m.cur() > 0 && prng.chance(30, 100);
+		let real_rewind = m.cur() > 0 && prng.chance(30, 100) && !wipe_now;
 		if real_rewind || prng.chance(50, 100) {
 			let cur = m.cur();
 			let k = if !real_rewind || prng.chance(10, 100) {
@@ -809,12 +816,23 @@ fn program<T: Elem>(
 			70..=92 => 2,
 			_ => 3,
 		} + if rewound && prng.bool() { 1 } else { 0 };
+		let nblk = if wipe_now { 2 } else { nblk };
 		for _b in 0..nblk {
 			let below = m.leaves.len();
 			let n_app = match prng.below(100) {
 				0..=9 => 0,
 				10..=93 => prng.range(1, 12 * cfg.scale),
 				_ => prng.range(13 * cfg.scale, 40 * cfg.scale),
+			};
+			// wipe unit: first block makes the leaf count even (and at least 2), second block appends nothing and spends all
+			let n_app = if wipe_now {
+				if _b == 0 {
+					(below % 2) as u64 + if below == 0 { 2 } else { 0 }
+				} else {
+					0
+				}
+			} else {
+				n_app
 			};
 			let mut spent: Vec<usize> = vec![];
 			let mut pat = 9;
@@ -840,6 +858,10 @@ fn program<T: Elem>(
 				if prunable {
 					pat = pick_pattern(cfg.focus, &mut prng);
 					spent = choose_removals(&m, below, pat, cfg.scale, &mut prng);
+					if wipe_now {
+						pat = 9;
+						spent = if _b == 0 { vec![] } else { m.unspent_idx(below) };
+					}
 					for &i in &spent {
 						let pos = m.pos_of(i);
 						match pmmr.prune(pos) {
@@ -879,7 +901,7 @@ fn program<T: Elem>(
 		st.max_leaves = st.max_leaves.max(m.leaves.len() as u64);
 
 		// ---- commit or discard
-		match prng.below(100) {
+		match if wipe_now { 0 } else { prng.below(100) } {
 			0..=71 => {
 				tr.op("sync", "sync".into());
 				if let Err(e) = be.sync() {
@@ -910,7 +932,7 @@ fn program<T: Elem>(
 		}
 
 		// ---- compaction between units (TxHashSet::compact protocol)
-		if prunable && prng.chance(25, 100) {
+		if prunable && (prng.chance(25, 100) || wipe_now) {
 			let rounds = if prng.chance(30, 100) { 2 } else { 1 };
 			for r in 0..rounds {
 				let cur = m.cur();
@@ -919,6 +941,7 @@ fn program<T: Elem>(
 				} else {
 					prng.range(min_rewind as u64, cur as u64) as usize
 				};
+				let c = if wipe_now { cur } else { c };
 				let exact = prng.chance(75, 100);
 				let keep = m.blks[c].n_leaves;
 				// positions spent by the blocks between the cutoff and the head
@@ -955,11 +978,14 @@ fn program<T: Elem>(
 				if r == 1 {
 					st.compact_twice += 1;
 				}
+				if wipe_now && r == 0 && after.1 == 0 && before.1 > 0 {
+					st.wiped_data_files += 1;
+				}
 				tr.compactions += 1;
 				min_rewind = c;
 				last_cutoff_leaves = keep;
 				check(&mut be, &m, size, prunable, true, false, &mut prng, st)?;
-				if prng.chance(30, 100) {
+				if prng.chance(30, 100) && !wipe_now {
 					drop(be);
 					be = open_backend(dir, prunable)?;
 					st.reopens += 1;
@@ -970,7 +996,7 @@ fn program<T: Elem>(
 		}
 
 		// ---- drop / reopen
-		if prng.chance(12, 100) {
+		if prng.chance(12, 100) && !wipe_now {
 			drop(be);
 			be = open_backend(dir, prunable)?;
 			st.reopens += 1;
@@ -1009,6 +1035,7 @@ struct Totals {
 }
 
 fn add_stats(a: &mut Stats, b: &Stats) {
+	a.wiped_data_files += b.wiped_data_files;
 	a.steps_checked += b.steps_checked;
 	a.leaves_compared += b.leaves_compared;
 	a.spent_checked += b.spent_checked;
@@ -2105,6 +2132,7 @@ fn main() {
 		("store_discards", st.discards),
 		("store_syncs", st.syncs),
 		("store_max_leaves", st.max_leaves),
+		("store_compactions_leaving_the_data_file_empty_with_units_following", st.wiped_data_files),
 	] {
 		run.count(k, v);
 	}
@@ -2121,6 +2149,7 @@ fn main() {
 	run.require("store programs (variable size, non-prunable)", *t.programs.get("variable-nonprunable").unwrap_or(&0), q(50, 1000));
 	run.require("store programs (variable size, prunable: data file and size file compacted together)", *t.programs.get("variable-prunable").unwrap_or(&0), q(50, 1000));
 	run.require("steps checked against the reference", st.steps_checked, q(20_000, 500_000));
+	run.require("compactions that emptied the data file, further units on the same instance", st.wiped_data_files, q(25, 500));
 	run.require("compactions that removed data", st.compact_removing, q(500, 12_000));
 	run.require("compactions with nothing to compact", st.compact_noop, q(50, 1000));
 	run.require("compactions twice in a row", st.compact_twice, q(100, 5000));
